@@ -779,8 +779,21 @@ impl<'a> Gen<'a> {
         let n = self.sync_num(0);
         let s = self.sync_str(0);
         let p = self.uniq_prefix.clone();
-        let k = self.cfg.force_matrix.unwrap_or_else(|| self.rng.below(24));
+        let k = self.cfg.force_matrix.unwrap_or_else(|| self.rng.below(MATRIX_N));
         self.tag("native-matrix");
+        if k >= 24 {
+            let gated = match k {
+                39 => self.cfg.f_proxy,
+                46 | 78 => self.cfg.f_symbol,
+                61 | 62 => self.cfg.f_gen,
+                63 => self.cfg.f_class,
+                _ => true,
+            };
+            if gated && let Some(t) = MATRIX_EXT.get(k - 24) {
+                self.tag("native-matrix-ext");
+                return t.replace("@A", &a).replace("@N", &n).replace("@S", &s);
+            }
+        }
         match k {
             0 => format!("{a}.reduceRight((p: any, c: any) => p.concat([{{ v: (Number(c.v) || 0) + p.length }}]), [])"),
             1 => format!("[{a}.reduceRight((p: any, c: any) => ({{ v: (Number(p.v) || 0) + (Number(c.v) || 0), prev: [p.v] }}), {{ v: {n} }})]"),
@@ -1438,6 +1451,18 @@ impl<'a> Gen<'a> {
                     self.loop_depth = 0;
                     let nb = 1 + self.rng.below(3);
                     let mut body = self.block(nb, depth + 1);
+                    if self.rng.chance(0.5) {
+                        // leave the function from inside open block scopes
+                        self.tag("early-return");
+                        let n = self.rng.below(6);
+                        let v = self.num(1);
+                        body.push(Node::leaf(match self.rng.below(if self.cfg.f_try { 4 } else { 3 }) {
+                            0 => format!("if ((Number({p}) || 0) > {n}) {{ const t: any = {v}; {{ const u: any = [t]; return u[0]; }} }}"),
+                            1 => format!("for (let i = 0; i < 3; i++) {{ const t: any = i + (Number({p}) || 0); if (t > {n}) {{ return t + {v}; }} }}"),
+                            2 => format!("switch ((Number({p}) || 0) % 2) {{ case 0: {{ const t: any = {v}; return t; }} }}"),
+                            _ => format!("try {{ const t: any = {v}; if (t !== {n}) {{ return t; }} }} finally {{ __log.push(\"fin\"); }}"),
+                        }));
+                    }
                     let ret = self.num(2);
                     body.push(Node::leaf(format!("return {};", ret)));
                     self.in_async = sa;
@@ -1492,6 +1517,28 @@ impl<'a> Gen<'a> {
                     return Node::block(format!("async function {}({}: any): Promise<any> {{", f, p), body, "}");
                 }
                 85..=88 if deep && self.cfg.f_gen => {
+                    if self.rng.chance(0.3) {
+                        // a generator delegating with yield* that is closed, abandoned, thrown into
+                        // or drained while the delegation is in progress; the delegate's closure
+                        // scope holds the outer generator
+                        self.tag("gen-delegate");
+                        let gi = self.fresh("gi");
+                        let go = self.fresh("go");
+                        let it = self.fresh("it");
+                        let seen = self.fresh("sn");
+                        let n = self.sync_num(0);
+                        let variant = match self.rng.below(5) {
+                            0 => format!("{seen}.push({it}.return(7).value);"),
+                            1 => String::new(),
+                            2 if self.cfg.f_break => format!("for (const v of {it}) {{ {seen}.push(v); if (v === 2) break; }}"),
+                            2 => format!("{seen}.push({it}.return(8).done);"),
+                            3 => format!("try {{ {it}.throw(new Error(\"t\")); }} catch (e: any) {{ {seen}.push(\"thrown\"); }}"),
+                            _ => format!("for (const v of {it}) {{ {seen}.push(v); }}"),
+                        };
+                        return Node::leaf(format!(
+                            "{{ function* {gi}(): any {{ yield 1; yield 2; yield {n}; }} function* {go}(): any {{ yield 0; yield* {gi}(); yield 9; }} const {it}: any = {go}(); const {seen}: any[] = [{it}.next().value, {it}.next().value]; {variant} __log.push(\"yd:\" + {seen}.join(\",\")); }}"
+                        ));
+                    }
                     self.tag("gen-decl");
                     let g = self.fresh("g");
                     let p = self.fresh("p");
@@ -1566,7 +1613,7 @@ impl<'a> Gen<'a> {
                     // clock, randomness, console and identity-keyed collections: everything a run
                     // can observe of the outside world or of addresses
                     self.tag("env-identity");
-                    let k = self.rng.below(8);
+                    let k = self.rng.below(13);
                     let o = self.pick_var(Ty::Obj).map(|v| v.name).unwrap_or_else(|| "__log".into());
                     let a = self.pick_var(Ty::Arr).map(|v| v.name).unwrap_or_else(|| "__log".into());
                     let id = self.fresh("e");
@@ -1582,6 +1629,14 @@ impl<'a> Gen<'a> {
                         ),
                         5 => format!(
                             "const {id}: any = new Set<any>([{o}, {a}, {o}, {{}}, {{}}]); __log.push(\"os:\" + {id}.size + \":\" + {id}.has({a}));"
+                        ),
+                        8 => format!("console.time(\"{}\");", ["t", "load"][self.rng.below(2)]),
+                        9 => format!("console.timeEnd(\"{}\");", ["t", "load"][self.rng.below(2)]),
+                        10 => ["console.group(\"g\"); console.log(\"in group\");", "console.groupEnd(); console.log(\"after group\");"][self.rng.below(2)].to_string(),
+                        11 => "console.countReset(\"c\"); console.count(\"c\"); console.count(\"d\");".to_string(),
+                        12 => format!(
+                            "__log.push(\"nf:\" + new Function(\"a\", \"b\", \"return String(a + b) + typeof Number + typeof String + [a].length\")({}, 2));",
+                            self.sync_num(0)
                         ),
                         6 => format!(
                             "const {id} = Symbol(\"q\"); const {id}o: any = {{ [{id}]: 1, a: 2, [Symbol.for(\"g\")]: 3 }}; __log.push(\"sy:\" + Object.getOwnPropertySymbols({id}o).length + String({id}o[{id}]) + String(Symbol.for(\"g\") === Symbol.for(\"g\")));"
@@ -1798,6 +1853,74 @@ impl<'a> Gen<'a> {
         }
     }
 }
+
+/// Number of native-matrix templates (24 inline ones + `MATRIX_EXT`).
+pub const MATRIX_N: usize = 24 + MATRIX_EXT.len();
+
+/// Second catalogue of native-matrix templates: natives that *detach* values from their receiver
+/// (splice, pop, shift, delete), that build several fresh objects in a row (entries, descriptors,
+/// regexp groups, JSON.parse of nested input), that call back into user code through getters,
+/// toString/toJSON, iterators, proxies and comparators, and argument plumbing (bind, apply, rest,
+/// spread, destructuring). `@A` = an array of fresh `{ v }` objects reachable only through the
+/// array, `@N` = a number, `@S` = a string. Every template yields an array of objects with `.v`.
+pub const MATRIX_EXT: &[&str] = &[
+    /* 24 */ r#"((t: any[]) => { const r: any[] = t.splice(0, 2); return [{ v: r.length, r: r, t: t }]; })(@A)"#,
+    /* 25 */ r#"((t: any[]) => { const r: any[] = t.splice(1, 1, { v: @N }, { v: 7 }); return r.concat(t); })(@A)"#,
+    /* 26 */ r#"((t: any[]) => { const x: any = t.pop(); const y: any = t.shift(); const j: any[] = [{}, [1]]; return [{ v: j.length, x: x, y: y, t: t }]; })(@A)"#,
+    /* 27 */ r#"((t: any[]) => { t.unshift({ v: @N }, { v: 1 }); t.push({ v: 2 }, { v: 3 }); return t; })(@A)"#,
+    /* 28 */ r#"[[{ v: @N }], [[{ v: 1 }, [{ v: 2 }]]], @A].flat(3)"#,
+    /* 29 */ r#"Object.entries(Object.fromEntries(@A.map((o: any, i: number) => ["k" + i, o]))).map((e: any) => ({ v: e[1].v, k: e[0], o: e[1] }))"#,
+    /* 30 */ r#"Object.values(Object.getOwnPropertyDescriptors(Object.fromEntries(@A.map((o: any, i: number) => ["k" + i, o])))).map((d: any) => ({ v: d.value.v, w: d.writable }))"#,
+    /* 31 */ r#"((m: any) => [{ v: m ? m.index : -1, g: m ? m.groups : null, a: m ? [...m] : [] }])(/(?<first>[a-z])(?<rest>[a-z]*)/.exec(@S))"#,
+    /* 32 */ r#"Array.from(new Map(@A.map((o: any, i: number) => [o, { v: i }])).keys())"#,
+    /* 33 */ r#"((f: any) => f({ v: 3 }))(((x: any, y: any, z: any) => [x, y, z]).bind(null, { v: @N }, { v: 2 }))"#,
+    /* 34 */ r#"((...rest: any[]) => rest)(...@A, { v: @N })"#,
+    /* 35 */ r#"(function (): any { return [this, ...arguments]; }).apply({ v: @N }, @A)"#,
+    /* 36 */ r#"Reflect.apply((x: any, y: any) => [x ?? { v: -1 }, y ?? { v: -2 }], null, @A)"#,
+    /* 37 */ r#"[Reflect.construct(function (o: any) { this.v = @N; this.o = o; } as any, @A)]"#,
+    /* 38 */ r#"((e: any) => [{ v: 0, c: e.cause, m: e.message }])(new Error(@S, { cause: { v: @N, l: @A } }))"#,
+    /* 39 */ r#"((p: any) => [p.x, p.yy, { v: Object.keys(p).length }])(new Proxy({}, { get: (t: any, k: any) => ({ v: String(k).length, k: String(k) }), ownKeys: () => ["a", "b"], getOwnPropertyDescriptor: () => ({ value: 1, enumerable: true, configurable: true }) }))"#,
+    /* 40 */ r#"Object.values({ get a(): any { return { v: @N }; }, get b(): any { return { v: 1, l: [{}] }; }, c: { v: 2 } })"#,
+    /* 41 */ r#"JSON.parse(JSON.stringify(@A.map((o: any) => ({ v: o.v, t: [o.v, { w: [o] }] }))))"#,
+    /* 42 */ r#"@A.map((o: any) => ({ v: o.v, toString(): string { return JSON.stringify({ q: this.v }); } })).sort()"#,
+    /* 43 */ r#"[{ v: @A.map((o: any) => ({ toString(): string { return [{}, o.v].length + "x"; } })).join("-").length }]"#,
+    /* 44 */ r#"Array.from("abc", (c: string, i: number) => ({ v: i + @N, c: c }))"#,
+    /* 45 */ r#"[...@A.entries()].map((e: any) => ({ v: e[0], o: e[1] }))"#,
+    /* 46 */ r#"Array.from({ [Symbol.iterator]() { let i = 0; return { next: () => i < 3 ? { value: { v: i++ }, done: false } : { value: undefined, done: true } }; } } as any)"#,
+    /* 47 */ r#"(([x, [y, z = { v: -1 }], ...rest]: any) => [x, y, z, ...rest])([{ v: @N }, [{ v: 1 }], ...@A])"#,
+    /* 48 */ r#"(({ p, q = { v: -3 }, ...others }: any) => [p, q, { v: Object.keys(others).length, o: others }])({ p: { v: @N }, r: { v: 1 }, s2: @A })"#,
+    /* 49 */ r#"Object.values(Object.assign({}, ...@A.map((o: any, i: number) => ({ ["k" + i]: { v: o.v } }))))"#,
+    /* 50 */ r#"((g: any) => Object.keys(g).map((k: string) => ({ v: g[k].length, k: k, m: g[k] })))(Object.groupBy(@A.map((o: any) => ({ v: o.v })), (o: any) => "g" + ((Number(o.v) || 0) % 3)))"#,
+    /* 51 */ r#"((s2: any) => { const out: any[] = []; for (const x of s2) { out.push(x); if (out.length < 3) s2.add({ v: out.length }); } return out; })(new Set(@A))"#,
+    /* 52 */ r#"((m: any) => { const out: any[] = []; for (const [k, x] of m) { out.push({ v: x.v, k: k }); m.delete(k); if (out.length < 3) m.set({ id: out.length }, { v: out.length }); } return out; })(new Map(@A.map((o: any) => [{ id: o.v }, o])))"#,
+    /* 53 */ r#"@A.concat([{ v: @N }], { v: 1 } as any, [[{ v: 2 }]] as any).map((o: any) => Array.isArray(o) ? o[0] : o)"#,
+    /* 54 */ r#"((t: any[]) => { t.length = 1; t[3] = { v: @N }; return Array.from(t, (o: any) => o ?? { v: -1 }); })(@A)"#,
+    /* 55 */ r#"((t: any[]) => t.fill({ v: @N }, 1, 2).copyWithin(0, 1))(@A.concat([{ v: 0 }, { v: 1 }]))"#,
+    /* 56 */ r#"((t: any[]) => { t.sort((x: any, y: any) => { if (t.length < 8) t.push({ v: 9 }); return (Number(x.v) || 0) - (Number(y.v) || 0); }); return t.slice(0, 6); })(@A)"#,
+    /* 57 */ r#"[{ v: 0, r: @S.replace(/(?<c>[a-z])/g, (...args: any[]) => JSON.stringify(args[args.length - 1])) }]"#,
+    /* 58 */ r#"((strs: any, ...vals: any[]) => [{ v: strs.length, raw: [...strs.raw], vals: vals }])`a${{ v: @N }}b${@A}c`"#,
+    /* 59 */ r#"((o: any) => [{ v: 0, own: o.own, other: o.other, base: o.base }])(Object.create({ base: { v: 1 } }, { own: { value: { v: @N }, enumerable: true }, other: { get: () => ({ v: 2 }), enumerable: true } }))"#,
+    /* 60 */ r#"((o: any) => { delete o.k0; o.k9 = { v: @N }; return Object.values(o); })(Object.fromEntries(@A.map((x: any, i: number) => ["k" + i, x])))"#,
+    /* 61 */ r#"((g: any) => { const first: any = g.next().value; const fin: any = g.return({ v: @N }).value; return [first ?? { v: -1 }, fin]; })((function* (): any { try { yield { v: 1 }; yield { v: 2 }; } finally { [{}, {}]; } })())"#,
+    /* 62 */ r#"((g: any) => { g.next(); const r: any[] = []; try { g.throw({ v: @N, e: [{}] }); } catch (e: any) { r.push(e); } return r; })((function* (): any { yield 1; })())"#,
+    /* 63 */ r#"[new (class { a: any = { v: @N }; b: any = [this.a, { v: 1 }]; get v(): number { return this.b.length; } })()]"#,
+    /* 64 */ r#"[{ v: 0, r: [..."ab"].map((c: string) => ({ [c]: { v: @N }, [c + "2"]: [{}] })) }]"#,
+    /* 65 */ r#"[{ v: 0, r: Object.entries({ a: 1, b: [2, { c: 3 }], d: { e: { f: [] } } }).map(([k, x]: any) => [k, structuredClone(x)]) }]"#,
+    /* 66 */ r#"JSON.parse('[{"v":1,"a":[{"b":{"c":[1,2,{"d":null}]}},{"e":[[],[{}]]}]},{"v":2,"s":"x"},{"v":3,"o":{"p":{"q":{"r":[{"t":1}]}}}}]')"#,
+    /* 67 */ r#"Array.of({ v: @N }, ...@A).concat(new Array({ v: 1 }, { v: 2 }))"#,
+    /* 68 */ r#"@A.flatMap((o: any, i: number) => i % 2 ? [[{ v: o.v }]] : [[{ v: -1 }], []]).flat()"#,
+    /* 69 */ r#"@A.map((o: any, i: number, all: any[]) => ({ v: i, o: o, n: all.length }))"#,
+    /* 70 */ r#"[@A.at(-1) ?? { v: -1 }, ...@A.map((o: any) => ({ v: o.v })).slice(-2)]"#,
+    /* 71 */ r#"Array.from(new Set(@A.map((o: any) => ({ v: o.v }))).entries()).map((e: any) => ({ v: e[0].v, same: e[0] === e[1] }))"#,
+    /* 72 */ r#"@A.map((o: any) => ({ v: o.v, w: [o] })).reverse()"#,
+    /* 73 */ r#"(() => { try { @A.forEach((o: any) => { throw { v: o.v, l: [{}] }; }); } catch (e: any) { return [e]; } return []; })()"#,
+    /* 74 */ r#"((t: any[]) => { const removed: any[] = []; while (t.length > 1) { removed.push(t.splice(t.length - 1, 1)[0]); } return removed.concat(t); })(@A.map((o: any) => ({ v: o.v, n: { m: o.v } })))"#,
+    /* 75 */ r#"((m: any, k: any) => { m.set(k, { v: @N }); const old: any = m.get(k); m.set(k, { v: 1 }); m.delete(k); const j: any[] = [{}, {}]; return [old, { v: j.length + m.size }]; })(new Map(), { id: 1 })"#,
+    /* 76 */ r#"((o: any) => { const old: any = o.p; o.p = { v: 1 }; delete o.q; const j: any[] = [{}, {}]; return [old, o.p, { v: j.length }]; })({ p: { v: @N, l: [{}] }, q: { v: 2 } })"#,
+    /* 77 */ r#"Object.values(Object.fromEntries([...new Map(@A.map((o: any, i: number) => ["k" + i, { v: o.v }]))]))"#,
+    /* 78 */ r#"((t: any[]) => { const it: any = t[Symbol.iterator](); const first: any = it.next().value; t.length = 0; const j: any[] = [{}, {}]; return [first ?? { v: -1 }, { v: j.length }]; })(@A)"#,
+    /* 79 */ r#"[{ v: [{}, {}].length }, { v: String({ toString() { return "ab" + [{}].length; } }).length }]"#,
+];
 
 pub fn render(root: &Node) -> String {
     let mut s = String::new();
